@@ -91,6 +91,9 @@ func runSpock(raw json.RawMessage, seed int64) (res Result) {
 	pk2 := w.PK(w.formOf(c.K2), int(seed/3))
 	p1 := w.spockProof(c.P1, c.K1)
 	p2 := w.spockProof(c.P2, c.K2)
+	if c.P1 == c.P2 && w.KeyScalar(w.formOf(c.K1)).Cmp(w.KeyScalar(w.formOf(c.K2))) == 0 && w.Rng.Intn(2) == 0 {
+		p2 = append([]byte(nil), p1...) // equal keys and byte-identical proofs (whatever their class)
+	}
 	ok, err := crypto.SPOCKVerify(pk1, p1, pk2, p2)
 	res.Evals++
 	if err != nil || ok != c.Expect {
